@@ -73,14 +73,15 @@ PTYPES = [None, "i32", "i64", "index"]
 TYPES = ["i32", "i64", "index"]
 ANAMES = ["attr", "prop1", "overflowFlags"]
 ATTRV = ["unit", "0 : i32", "1 : i32", "1 : i64", "\"s\"", "i32",
-         "#arith.overflow<none>", "#arith.overflow<nsw>"]
+         "#arith.overflow<none>", "#arith.overflow<nsw>", "[]"]
+FALSY_ATTRV = ("0 : i32", "[]")      # attributes whose Python truth value is False
 ARG_TYPES = ["i32", "i32", "i64", "index"]
 TEST_PROPS = ("prop1", "prop2", "prop3")
 ARITH_BIN = ("arith.addi", "arith.muli", "arith.subi", "arith.andi", "arith.ori", "arith.xori",
              "arith.divui", "arith.divsi", "arith.remui", "arith.remsi", "arith.shli")
 OVERFLOW_OPS = ("arith.addi", "arith.muli", "arith.subi", "arith.shli")
 INT_TYPE = re.compile(r"^(i[1-9][0-9]*|index)$")
-TIME_BUDGET_S = 20.0     # per path; wall times on the shared box are inflated several-fold
+TIME_BUDGET_S = 8.0      # per path; wall times on the shared box are inflated several-fold
 
 
 class RecipeInvalid(Exception):
@@ -170,8 +171,9 @@ def pattern_text(pat):
         if i not in pool_a:
             kind, x = pattrs[i]
             if kind == 1:
-                attr_lines.append(f"%a{i} = pdl.attribute = {ATTRV[_mod(x, len(ATTRV))]}")
-                mf.add("attr_const")
+                val = ATTRV[_mod(x, len(ATTRV))]
+                attr_lines.append(f"%a{i} = pdl.attribute = {val}")
+                mf.add("attr_const_falsy" if val in FALSY_ATTRV else "attr_const")
             elif kind == 2 and ptypes:
                 attr_lines.append(f"%a{i} = pdl.attribute : {tref(1 + _mod(x, len(ptypes)))}")
                 mf.add("attr_typed")
@@ -220,16 +222,12 @@ def pattern_text(pat):
     for k in order:
         op = ops[k]
         arg_ssas = []
-        inner_seen = set()
         for a in op["a"]:
             if a[0] == "o":
                 arg_ssas.append(oref(a[1]))
                 continue
             _, j, idx, share = a
             mf.add("nested_op")
-            if j in inner_seen:
-                mf.add("nested_same_op_twice")
-            inner_seen.add(j)
             if share and (j, idx) in result_vals:
                 mf.add("result_value_reused")
                 arg_ssas.append(result_vals[(j, idx)])
@@ -309,10 +307,11 @@ def pattern_text(pat):
                 rf.add("reuse_matched_attr")
             else:
                 ssa = fresh("ca")
-                line = f"{ssa} = pdl.attribute = {ATTRV[_mod(ref[1], len(ATTRV))]}"
+                val = ATTRV[_mod(ref[1], len(ATTRV))]
+                line = f"{ssa} = pdl.attribute = {val}"
                 if ref[2]:
                     late_consts.append(line)
-                    rf.add("const_attr_in_match_used_in_rewrite")
+                    rf.add("const_attr_in_match_used_in_rewrite" + ("_falsy" if val in FALSY_ATTRV else ""))
                 else:
                     rw_lines.append(line)
                 at.append((nm, ssa))
@@ -402,10 +401,13 @@ def _lit(vocab, x):
 
 
 def payload_text(pay):
-    """Total builder: a verified straight-line function. Ops of the arith dialect that would not
-    verify with the requested shape are emitted as test.op instead (a wrong-name near miss)."""
+    """Total builder: (text of a verified straight-line function, payload features). Ops of the arith
+    dialect that would not verify with the requested shape are emitted as test.op instead (a
+    wrong-name near miss). Feature `attr_shadows_property`: an op carries one name both in its
+    property and in its attribute dictionary."""
     vtypes = list(ARG_TYPES)
     lines = []
+    feats = set()
     for op in pay["ops"]:
         name = _lit(NAMES, op["n"])
         args = [_mod(a, len(vtypes)) for a in op["a"]]
@@ -441,6 +443,8 @@ def payload_text(pay):
             for nm in list(pr):
                 if nm not in TEST_PROPS or name == "test.pureop":
                     at.setdefault(nm, pr.pop(nm))
+        if set(at) & set(pr):
+            feats.add("attr_shadows_property")
         first = len(vtypes)
         vtypes.extend(res)
         lhs = ", ".join(f"%v{first + i}" for i in range(len(res)))
@@ -453,7 +457,7 @@ def payload_text(pay):
         lines.append(s)
     hdr = ", ".join(f"%v{i} : {t}" for i, t in enumerate(ARG_TYPES))
     return ("builtin.module {\n  func.func @f(" + hdr + ") {\n"
-            + "".join(f"    {line}\n" for line in lines) + "    func.return\n  }\n}\n")
+            + "".join(f"    {line}\n" for line in lines) + "    func.return\n  }\n}\n"), sorted(feats)
 
 
 # =================================================================================================
@@ -815,7 +819,7 @@ def random_op(draw, nvalues):
                 "r": [pick(len(TYPES)) for _ in range(pick(3))]}
     t = pick(len(TYPES))
     return {"n": name, "a": [pick(nvalues), pick(nvalues)], "at": [],
-            "pr": [[2, 6 + pick(2)]], "r": [t]}
+            "pr": [[2, 6 + pick(2)]], "r": [t]}   # overflowFlags none/nsw
 
 
 def _vtypes_of(ops):
@@ -873,7 +877,7 @@ def patterns(draw):
     attrs = []
     for _ in range(pick(3)):
         kind = draw(st.sampled_from([0, 1, 1, 1, 2]))
-        attrs.append([kind, pick(len(ATTRV)) if kind == 1 else pick(ntypes)])
+        attrs.append([kind, (1 if pick(4) == 0 else pick(len(ATTRV))) if kind == 1 else pick(ntypes)])
     noper = 1 + pick(3)
     operands = [draw(st.sampled_from([0, 0, 0, 1, 2, 3])) for _ in range(noper)]
     nops = draw(st.sampled_from([1, 1, 1, 2, 2, 3]))
@@ -887,9 +891,9 @@ def patterns(draw):
                 args.append([1, k - 1 if draw(st.booleans()) else pick(k), pick(2), pick(4) == 0 and 1 or 0])
             else:
                 args.append([0, draw(st.sampled_from([0, 0, 1, 1, 2, 3]))])
-        nres = draw(st.sampled_from([0, 1, 1, 2])) if name in (0, 4) else draw(st.sampled_from([1, 1, 1, 1, 0, 2]))
+        nres = draw(st.sampled_from([0, 1, 1, 2, 2])) if name in (0, 4) else draw(st.sampled_from([1, 1, 1, 1, 0, 2]))
         if k < nops - 1 and nres == 0:
-            nres = 1
+            nres = 1 + pick(2)
         res = [draw(st.sampled_from([0, 0, 1, 1, 2, 3])) for _ in range(nres)]
         at = []
         if attrs:
@@ -900,11 +904,13 @@ def patterns(draw):
     root_nres = len(ops[-1]["r"])
 
     def valref():
-        c = draw(st.sampled_from([0, 0, 0, 1, 1, 2]))
+        c = draw(st.sampled_from([0, 0, 0, 1, 1, 1, 2, 2]))
         if c == 0:
             return [0, pick(4)]
         if c == 1:
-            return [1, pick(nops), pick(2), pick(2)]
+            # targets are numbered root first: prefer a nested matched op when there is one
+            k = 1 + pick(nops - 1) if nops > 1 and draw(st.booleans()) else pick(nops)
+            return [1, k, pick(2), pick(2)]
         return [2, pick(2), pick(2)]
 
     def newop(nres):
@@ -919,8 +925,8 @@ def patterns(draw):
         return {"n": name, "a": [valref() for _ in range(nargs)], "at": at, "r": res}
 
     rw = []
-    for _ in range(draw(st.sampled_from([0, 0, 0, 1]))):
-        rw.append([3, 0, newop(pick(2))])     # extra ops are created before the root goes away
+    for _ in range(draw(st.sampled_from([0, 0, 0, 1, 1, 2]))):
+        rw.append([3, 0, newop(draw(st.sampled_from([0, 1, 1, 2, 2])))])   # created before the root goes away
     nact = draw(st.sampled_from([1, 1, 1, 2]))
     for i in range(nact):
         kind = draw(st.sampled_from([0, 1, 1, 2, 2, 2]))
@@ -960,36 +966,47 @@ def corpus_cases(draw, keys, max_segments):
 # =================================================================================================
 # one case
 def texts_of(recipe):
-    """(pattern text, payload text, match features, rewrite features)"""
+    """(pattern text, payload text, match features, rewrite features, payload features)"""
     kind = recipe["kind"]
     if kind == "gen":
         ptxt, mf, rf, _ = pattern_text(recipe["pattern"])
-        return ptxt, payload_text(recipe["payload"]), mf, rf
+        paytxt, pf = payload_text(recipe["payload"])
+        return ptxt, paytxt, mf, rf, pf
     pats = corpus_patterns()
     if recipe["key"] not in pats:
         raise RecipeInvalid(f"corpus pattern {recipe['key']} not found")
     ptxt, own = pats[recipe["key"]]
     feats = ["corpus:" + recipe["key"]]
     if kind == "corpus":
-        return ptxt, payload_text(recipe["payload"]), feats, []
+        paytxt, pf = payload_text(recipe["payload"])
+        return ptxt, paytxt, feats, [], pf
     if kind == "corpus_own":
         if own is None:
             raise RecipeInvalid("chunk has no payload of its own")
-        return ptxt, own, feats, []
+        return ptxt, own, feats, [], []
     raise RecipeInvalid(f"unknown kind {kind}")
 
 
 def classify(recipe):
     """Run the oracle on one recipe -> (sig | None, detail, outcome, info, feats)."""
-    ptxt, paytxt, mf, rf = texts_of(recipe)
-    feats = mf + rf
+    ptxt, paytxt, mf, rf, pf = texts_of(recipe)
+    feats = mf + rf + ["payload:" + f for f in pf]
     recursive = bool(recipe.get("recursive", False))
     greedy = bool(recipe.get("greedy", False))
     outcome, info = evaluate(ptxt, paytxt, recursive, greedy)
     sig, detail = None, ""
     if outcome == "differs":
         sig = {"check": "payload_differs", "match_features": ",".join(mf),
-               "rewrite_features": ",".join(rf), "recursive": recursive, "greedy": greedy}
+               "rewrite_features": ",".join(rf), "payload_features": ",".join(pf),
+               "recursive": recursive, "greedy": greedy}
+        # one marker key per feature of the (minimised) case, so that a known finding can name the
+        # feature its defect needs without fixing the incidental rest of the list
+        for f in mf:
+            sig["m:" + f] = "1"
+        for f in rf:
+            sig["r:" + f] = "1"
+        for f in pf:
+            sig["p:" + f] = "1"
         detail = (f"first difference {info['diff']}\n--- pattern\n{ptxt}--- payload\n{paytxt}"
                   f"--- interpreted (PDLRewritePattern)\n{info['after_a']}\n"
                   f"--- compiled (convert-pdl-to-pdl-interp + PDLInterpRewritePattern)\n{info['after_b']}")
@@ -1006,15 +1023,17 @@ def classify(recipe):
 def _same_class(sig):
     """Predicate used for the internal minimisation: same sub-oracle and same failure site, the
     pattern features are free to become fewer."""
-    free = ("match_features", "rewrite_features")
-    keep = {k: v for k, v in sig.items() if k not in free}
+    def fixed(sg):
+        return {k: v for k, v in sg.items()
+                if k not in ("match_features", "rewrite_features", "payload_features") and k[1:2] != ":"}
+    keep = fixed(sig)
 
     def pred(r):
         try:
             s2 = classify(r)[0]
         except RecipeInvalid:
             return False
-        return s2 is not None and {k: v for k, v in s2.items() if k not in free} == keep
+        return s2 is not None and fixed(s2) == keep
     return pred
 
 
@@ -1036,8 +1055,14 @@ def run_one(h, recipe, label):
         h.case(recipe, False, label=label + ":both_raise")
         return
     changed = bool(info.get("changed"))
-    h.case(recipe, changed, label=label)
+    sample = None
+    if changed and len(h.samples) < 6:
+        ptxt, paytxt = texts_of(recipe)[:2]
+        sample = {"pattern": ptxt, "payload": paytxt, "recursive": bool(recipe.get("recursive")),
+                  "greedy": bool(recipe.get("greedy"))}
+    h.case(recipe, changed, label=label, sample=sample)
     if changed:
+        h.count("nt_kind:" + label)
         for f in feats:
             if not f.startswith("corpus:"):
                 h.count("nt_feat:" + f)
@@ -1089,6 +1114,6 @@ def checks(h):
     def body_corpus(r):
         run_one(h, r, "corpus")
 
-    h.hyp("generated_patterns", gen_cases(segs), body_gen, h.scale(60, 2600), 1, shrink_budget_s=10.0)
-    h.hyp("corpus_patterns", corpus_cases(keys, segs), body_corpus, h.scale(20, 500), 2,
+    h.hyp("generated_patterns", gen_cases(segs), body_gen, h.scale(180, 3500), 1, shrink_budget_s=10.0)
+    h.hyp("corpus_patterns", corpus_cases(keys, segs), body_corpus, h.scale(50, 700), 2,
           shrink_budget_s=10.0)
